@@ -3,7 +3,7 @@ vocabulary instruction words is fed to a running core one word per tick, each wo
 PC currently is, while interrupts, resets and regime changes (mode, ISA, IT state, MPU/MMU, alignment
 policy) are injected at seeded ticks.  Oracle M-host: nothing but NotImplementedError may escape."""
 from sim import gen as G, machine as M
-from sim.board import Board
+from sim.stream import StreamBoard
 from sim.monitors import RangeMonitor, ModeMonitor
 from sim.gen import CODE, CODE_SZ, DATA, LOW, HIGH, STACKS
 
@@ -115,7 +115,7 @@ def gen_case(item, rng, tier):
     G.set_data(devices[2], 0x3C0, bytes(rng.getrandbits(8) for _ in range(0x80)))
     reg0 = regime(rng, cfg, True)
     reg0['pc'] = CODE + 4 * rng.randrange(0, 64)
-    core = {'config': cfg, 'devices': devices, 'regs': reg0}
+    core = {'config': cfg, 'devices': devices, 'regs': reg0, 'no_poke': [TABLES]}
     if item['k'] == 'sweep16':
         n = 65536 // item['of']
         lo = item['slice'] * n
@@ -144,71 +144,14 @@ def gen_case(item, rng, tier):
         else:
             events.append({'tick': t, 'core': 0, 'kind': 'regime', 'regs': regime(rng, cfg)})
     events.sort(key=lambda e: e['tick'])
-    return {'scenario': 'corrupt', 'kind': item['k'], 'cores': [core], 'events': events, 'words': words, 'force': force,
+    core['words'] = words
+    core['force'] = force
+    return {'scenario': 'corrupt', 'kind': item['k'], 'cores': [core], 'events': events,
             'max_ticks': nt + 4, 'stop_at_done': False}
 
 
 def gen(item, rng, tier):
     return gen_case(item, rng, tier)
-
-
-class StreamBoard(Board):
-    """feeds one stream word per tick at the current PC; applies 'regime' events"""
-
-    def __init__(self, case, observers=()):
-        super().__init__(case, observers)
-        self.words = case['words']
-        self.pos = 0
-        self.force = case.get('force')
-        self.vmsa = case['cores'][0]['config'].get('memory_system_architecture') == 'VMSA'
-
-    def apply_event(self, ev):
-        if ev['kind'] == 'regime':
-            arm = self.cores[0].arm
-            pc = arm.registers.pc_store_value()
-            M.load_state(arm, ev['regs'])
-            arm.registers._R[M.RName.PC] = pc & (~1 if (ev['regs']['cpsr'] >> 5) & 1 else ~3) & M.M32
-            self.count('fault.regime-change')
-            self.log.update(repr(('E', self.tick, 'regime')).encode())
-            return
-        super().apply_event(ev)
-
-    def step_core(self, ci):
-        core = self.cores[ci]
-        arm = core.arm
-        r = arm.registers
-        if self.pos >= len(self.words):
-            self.stop = True
-            return None
-        w = self.words[self.pos]
-        self.pos += 1
-        if r.cpsr.j:
-            r.cpsr.j = 0
-            self.count('probe.j-cleared')
-        if arm.is_wait_for_interrupt or arm.is_wait_for_event:
-            arm.is_wait_for_interrupt = arm.is_wait_for_event = False
-            self.count('probe.sleep-cancelled')
-        if self.force is not None:
-            f = self.force
-            r.cpsr.t = 1
-            if f['it'] is None:
-                r.cpsr.it = ((self.pos * 37) & 0xF0) | [0x4, 0xC, 0x2, 0xA, 0x6, 0xE, 0x1, 0x3, 0x5, 0x7, 0x9, 0xB, 0xD, 0xF][self.pos % 14]
-            else:
-                r.cpsr.it = f['it']
-        pc = r.pc_store_value()
-        thumb = (r.cpsr.value >> 5) & 1
-        pc &= ~1 if thumb else ~3
-        ok = False
-        for mc in arm.mem.memories:
-            if mc.beginning <= pc and pc + 4 <= mc.end and hasattr(mc.mem, 'memory_array') and mc.beginning != TABLES:
-                ok = True
-        if not ok:
-            pc = CODE + (self.pos * 8) % (CODE_SZ - 8)
-            self.count('probe.reseat')
-        r._R[M.RName.PC] = pc
-        data = (w >> 16).to_bytes(2, 'little') + (w & 0xFFFF).to_bytes(2, 'little') if thumb else w.to_bytes(4, 'little')
-        M.poke(arm, pc, data)
-        return super().step_core(ci)
 
 
 class HostMonitor:
@@ -249,9 +192,20 @@ def run(case):
 
 def sample(case, res):
     return {'scenario': 'corrupt', 'kind': case['kind'], 'config': case['cores'][0]['config'], 'start_cpsr': hex(case['cores'][0]['regs']['cpsr']),
-            'words': ['%08x' % w for w in case['words'][:12]], 'n_words': len(case['words']),
+            'words': ['%08x' % w for w in case['cores'][0]['words'][:12]], 'n_words': len(case['cores'][0]['words']),
             'events': [{k: v for k, v in e.items() if k != 'regs'} for e in case['events'][:8]], 'ticks': res['ticks'],
             'violations': res['violations'][:2]}
+
+
+def _with_words(case, words, events=None, max_ticks=None):
+    c = dict(case)
+    core = dict(case['cores'][0])
+    core['words'] = words
+    c['cores'] = [core]
+    if events is not None:
+        c['events'] = events
+    c['max_ticks'] = max_ticks if max_ticks is not None else len(words) + 4
+    return c
 
 
 def snapshot_case(case, tick):
@@ -262,19 +216,22 @@ def snapshot_case(case, tick):
     b.run()
     if b.tick != tick or b.cores[0].dead:
         return None
-    spec = M.snapshot_core_spec(b.cores[0].arm, case['cores'][0])
+    old = case['cores'][0]
+    spec = M.snapshot_core_spec(b.cores[0].arm, old)
+    spec['words'] = old['words'][b.pos[0]:]
+    spec['force'] = old.get('force')
+    spec['no_poke'] = old.get('no_poke', [])
     n = dict(case)
     n['cores'] = [spec]
-    n['words'] = case['words'][b.pos:]
     n['events'] = [dict(e, tick=e['tick'] - tick) for e in case['events'] if e['tick'] >= tick]
-    n['max_ticks'] = len(n['words']) + 4
+    n['max_ticks'] = len(spec['words']) + 4
     return n
 
 
 def shrink(case):
     """candidates: restart from a state dump just before the failure, truncate after the failing word, drop events,
     drop words from the front"""
-    words = case['words']
+    words = case['cores'][0]['words']
     n = len(words)
     if n > 1:
         res = run(case)
@@ -287,21 +244,9 @@ def shrink(case):
                         yield c
     for cut in (n // 2, n - n // 4, n - 1):
         if 0 < cut < n:
-            c = dict(case)
-            c['words'] = words[:cut]
-            c['max_ticks'] = cut + 4
-            yield c
+            yield _with_words(case, words[:cut])
     for k in (n // 2, n // 4, 8, 1):
         if 0 < k < n:
-            c = dict(case)
-            c['words'] = words[k:]
-            c['events'] = [dict(e, tick=e['tick'] - k) for e in case['events'] if e['tick'] >= k]
-            yield c
+            yield _with_words(case, words[k:], [dict(e, tick=e['tick'] - k) for e in case['events'] if e['tick'] >= k])
     for i in range(len(case['events'])):
-        c = dict(case)
-        c['events'] = case['events'][:i] + case['events'][i + 1:]
-        yield c
-    for i in range(max(0, n - 6), n - 1):
-        c = dict(case)
-        c['words'] = words[:i] + [0xE320F000 if True else 0] + words[i + 1:]
-        yield c
+        yield _with_words(case, words, case['events'][:i] + case['events'][i + 1:], case['max_ticks'])
